@@ -328,7 +328,9 @@ pub fn visit_gather(curs: &TreeCursor, ctx: &mut Context, ws: &Workspace, symbol
             ctx.trigs.unset_vars = true;
         }
         return Ok(Navigation::GotoSibling);
-    } else if gen && node.kind() == "label_ref" && node.parent().unwrap().kind() == "arg_ent" {
+    } else if gen && node.kind() == "label_ref" && node.parent().unwrap().kind() == "arg_ent"
+        && child.is_some() && child.unwrap().kind() != "local_label" {
+        // (a local label in an ENT list is handled as any other reference to a local label)
         let f = register(&txt,loc,&node,symbols,None,ctx,vec![]);
         if f & merlin::symbol_flags::EXT > 0 && f & merlin::symbol_flags::ENT > 0 {
             push(rng,"label is both EXT and ENT in the same module",lsp::DiagnosticSeverity::ERROR);
